@@ -766,7 +766,7 @@ Definition i_dec (s : istate) (x : ires * istate) : Prop :=
   (length (i_cis s') <= length (i_cis s))%nat /\
   match r with IMsg _ => (pot s' < pot s)%nat | IEnd _ => (pot s' <= pot s)%nat end.
 
-Lemma yield_dec e q s : i_queue s = e :: q -> i_dec s (yield ro sm e s).
+Lemma yield_dec e q s : i_queue s = e :: q -> i_dec s (yield sm e s).
 Proof.
   intros Eq. unfold yield.
   assert (G0 : forall x, i_dec s (IEnd x, s)) by (intros; cbn; lia).
@@ -798,7 +798,7 @@ Proof.
     apply load_chunk_i_queue in El.
     eapply post_weaken; [apply IH| |auto].
     - isimpl. rewrite Ec in H. cbn [length] in H. destruct H as [H|H]; [left; exact H|right; lia].
-    - intros [r s2]. unfold i_dec, pot. isimpl. rewrite Ec, El. unfold index_load. cbn [map sumn fold_right length].
+    - intros [r s2]. unfold i_dec, pot. isimpl. rewrite Ec, El. unfold index_load, sumn. cbn [map fold_right length].
       intros [D1 D2]. split; [lia|]. destruct r; lia. }
   destruct (i_queue s) as [|e q] eqn:Eq.
   - destruct (i_cis s) as [|ci rest] eqn:Ec; [apply G0|]. apply L. reflexivity.
@@ -853,7 +853,7 @@ Proof.
     destruct (parse_summary ds f r false) as [sm| | | |] eqn:Es; cbn [post] in Ps |- *; try exact Ps; try exact I.
     destruct (if ro_md_cb r then _ else _) as [mds e]. destruct e as [e|]; [exact I|].
     eapply post_bind; [apply indexed_all_post|].
-    + destruct H as [H|[_ H]]; [left; exact H|right]. specialize (H r sm eq_refl Es).
+    + destruct H as [H|[_ H]]; [left; exact H|right]. specialize (H r sm Ed Es).
       unfold pot. cbn [i_cis i_queue length]. lia.
     + intros [[ms e] st] _. exact I.
 Qed.
